@@ -24,5 +24,18 @@ def run_config(ctx, rep, cfg, F):
     S.run_ops(ctx, rep, cfg, F, ["union", "difference"], RULES, "ann", 3500)
 
 
+def _accessors(ctx, rep, cfg, F):
+    from . import setops
+    setops.check_item_accessors(ctx, rep, F, "R08.1", ["UnionItem::left", "UnionItem::right"])
+
+
+_run_config_arms = run_config
+
+
+def run_config(ctx, rep, cfg, F):
+    _run_config_arms(ctx, rep, cfg, F)
+    _accessors(ctx, rep, cfg, F)
+
+
 def finalize(ctx, rep):
     S.swap_canary(ctx, rep, "union", RULES)
